@@ -130,6 +130,14 @@ def concretize(m, v):
     from .strings import XStr
     if isinstance(v, XStr):
         return v.concretize(m)
+    from . import ext as _ext
+    if isinstance(v, _ext.SExt):
+        return _ext.SExt(v.kind, {k: concretize(m, x) for k, x in v.fields.items()})
+    if isinstance(v, _ext.SBytes):
+        n = max(0, min(ev(v.n).as_long(), 400))
+        return bytes(ev(z3.Select(v.arr, i)).as_long() % 256 for i in range(n))
+    if isinstance(v, _ext.SDecoded):
+        return concretize(m, v.raw).decode('utf-8', 'replace')
     return v
 
 
@@ -148,6 +156,10 @@ def describe(v, depth=0):
         return sorted(str(V.concrete_card(i)) for i, g in enumerate(v.guards) if g is True)
     if isinstance(v, SVec):
         return [describe(x) for x in v.slots]
+    if type(v).__name__ == 'SExt':
+        return {'__ext__': v.kind, **{k: describe(x, depth + 1) for k, x in v.fields.items()}}
+    if isinstance(v, bytes):
+        return repr(v)
     if isinstance(v, tuple):
         return [describe(x) for x in v]
     if V.is_card(v):
